@@ -321,6 +321,12 @@ NoSpecial == [k |-> "none", b |-> Z8, n |-> 0, d |-> 1, t |-> ""]
 VTerm(e)  == [k |-> "term", e |-> e]
 InfOf(s)  == IF s > 0 THEN PInf ELSE NInf_
 
+\* Gamma(x) < 0 exactly on (-1,0), (-3,-2), (-5,-4), ...
+GammaNegative(x) == x.k = "rat" /\ x.n < 0 /\ ((-x.n) \div x.d) % 2 = 0
+\* outside the domain of an operation nothing is demanded of the VALUE, but equal operands must still
+\* give equal results on every scalar type: the driver compares the NaN-ness across receiver types
+AgreeRes == [k |-> "agree", b |-> Z8, n |-> 0, d |-> 1, t |-> ""]
+
 \* unary operations: result demanded for the operand view x where the operation defines one
 \* although x is not an ordinary point; NoSpecial = evaluate the meaning term; AnyRes = unconstrained
 Special1(op, x) ==
@@ -337,12 +343,12 @@ Special1(op, x) ==
   ELSE IF c = "ninf" THEN
     CASE op \in {"Neg", "Abs", "Cosh"} -> PInf
       [] op = "Sinh" -> NInf_
-      [] op \in {"Sin", "Cos", "Tan", "Log", "Log1p"} -> NaN
+      [] op \in {"Sin", "Cos", "Tan", "Log", "Log1p", "Sqrt"} -> NaN      \* IEEE 754: sqrt(-Inf) is invalid
       [] op \in {"Tanh", "Erf"} -> VI(-1)
       [] op \in {"Exp", "Log1pExp", "Logistic", "Sigmoid"} -> VZero
       [] op = "Erfc" -> VI(2)
       [] op = "LogErfc" -> VTerm(Log(Two))
-      [] OTHER -> AnyRes                                       \* Sqrt, Gamma, Lgamma of -Inf: outside the domain
+      [] OTHER -> AnyRes                                       \* Gamma, Lgamma of -Inf: outside the domain
   ELSE IF c = "zero" THEN
     CASE op = "Log" -> NInf_
       [] op = "Abs" -> VTok("pzero")                        \* |-0| = +0: the sign bit is cleared
@@ -350,6 +356,7 @@ Special1(op, x) ==
       [] op \in {"Gamma", "Lgamma"} -> AnyRes                  \* pole
       [] OTHER -> NoSpecial
   ELSE IF op = "Log1p" /\ x = VI(-1) THEN NInf_
+  ELSE IF op = "Lgamma" /\ GammaNegative(x) THEN NaN          \* log Gamma(x) where Gamma(x) < 0: undefined
   ELSE NoSpecial
 
 \* binary operations on float views x, y
@@ -407,7 +414,7 @@ InDomain1(op, x) ==
   CASE op \in {"Sqrt"}                  -> ~NegBit(x) \/ IsZeroV(x)
     [] op \in {"Log"}                   -> SignV(x) >= 0
     [] op \in {"Log1p"}                 -> ~LtV(x, VI(-1))
-    [] op \in {"Gamma", "Lgamma"}       -> SignV(x) > 0
+    [] op \in {"Gamma", "Lgamma"}       -> SignV(x) > 0 \/ x.k = "rat"        \* not a pole (0, -1, -2, ...)
     [] OTHER                            -> TRUE
 InDomain2(op, x, y) ==
   CASE op = "Pow"    -> SignV(x) > 0 \/ (y.k = "int") \/ SignV(x) = 0
